@@ -702,9 +702,15 @@ func parseBoolean(s string) (bool, error) {
 		return true, nil
 	case "y":
 		return true, nil
+	case "on":
+		return true, nil
 	case "no":
 		return false, nil
 	case "n":
+		return false, nil
+	case "off":
+		return false, nil
+	case "nil":
 		return false, nil
 	}
 	return false, errors.New("invalid boolean value")
